@@ -523,3 +523,5 @@ def run(ctx, led):
     from . import kernel as _kernel
     _kernel.run_bundle(led, ctx, "J")
     run_rule(led, "J13", "watcher removal selects exactly the watcher with that nogood id and right-hand side", j13, ctx)
+    from . import kernel as _kernel4
+    _kernel4.run_lifecycle(led, ctx, "J")
